@@ -1,0 +1,501 @@
+// Copyright © 2022-2026 Obol Labs Inc. Licensed under the terms of a Business Source License 1.1
+
+//go:build verif
+
+// Verification contracts (comments only; read by /verif/govc, never compiled into charon).
+package cluster
+
+// ---- SSZ put helpers: every byte of the argument reaches the hasher --------------------------------
+
+//@ func leftPad
+//@ assume-contract pads b on the left with zero bytes up to length l (loop over append not modelled)
+//@ pure
+//@ ensures len(result) >= l && len(result) >= len(b) && (len(b) >= l ==> result == b)
+//@ ensures forall(i, 0, len(b), result[len(result) - len(b) + i] == b[i]) && forall(i, 0, len(result) - len(b), result[i] == 0)
+//@ ensures len(b) < l ==> len(result) == l
+
+//@ func putByteList
+//@ props C12
+//@ callreq h.AppendBytes32: a1 == b
+//@ callreq h.MerkleizeWithMixin: a2 == uint64(len(b)) && a3 == uint64(limit+31)/32
+//@ ensures (result == nil) <==> (len(b) <= limit)
+//@ ensures result == nil ==> ncalls(h.AppendBytes32) == 1 && ncalls(h.MerkleizeWithMixin) == 1
+//@ ensures result != nil ==> ncalls(h.AppendBytes32) == 0
+
+// The k-th PutBytes call (k counted from 0) receives the k-th 65-byte window of sig, and on success
+// there are len(sig)/65 of them: together they cover every byte of sig exactly once.
+//@ func putK1SigList
+//@ props C12
+//@ requires maxAmountSigs >= 0
+//@ callreq h.PutBytes: 65*ncalls(h.PutBytes)+65 <= len(sig) && seqeq(a1, sig[65*ncalls(h.PutBytes) : 65*ncalls(h.PutBytes)+65])
+//@ callreq h.MerkleizeWithMixin: a2 == uint64(len(sig)/65) && a3 == uint64(maxAmountSigs)
+//@ ensures result == nil ==> len(sig) % 65 == 0 && len(sig)/65 <= maxAmountSigs
+//@ ensures result == nil ==> ncalls(h.PutBytes) == len(sig)/65 && ncalls(h.MerkleizeWithMixin) == 1
+//@ ensures result != nil ==> ncalls(h.PutBytes) == 0 && ncalls(h.MerkleizeWithMixin) == 0
+//@ loop 1 invariant i >= 0 && i <= len(sig) && i == 65*ncalls(h.PutBytes) && ncalls(h.MerkleizeWithMixin) == 0
+//@ canary result != nil
+
+//@ func putBytesN
+//@ props C12
+//@ callreq h.PutBytes: a1 == leftPad(b, n) && len(a1) == n
+//@ ensures (result == nil) <==> (len(b) <= n)
+//@ ensures result == nil ==> ncalls(h.PutBytes) == 1
+//@ ensures result != nil ==> ncalls(h.PutBytes) == 0
+
+//@ func from0xHex
+//@ assume-contract deterministic hex decoding (encoding/hex); a non-empty input decodes to exactly 'length' bytes or fails
+//@ pure
+//@ ensures r1 == nil && s != "" ==> len(r0) == length
+//@ ensures s == "" ==> r1 == nil && len(r0) == 0
+
+//@ func putHexBytes20
+//@ props C12
+//@ callreq h.PutBytes: res(1, from0xHex(addr, 20)) == nil && a1 == leftPad(res(0, from0xHex(addr, 20)), 20) && len(a1) == 20
+//@ ensures (result == nil) <==> (res(1, from0xHex(addr, 20)) == nil)
+//@ ensures result == nil ==> ncalls(h.PutBytes) == 1
+//@ ensures result != nil ==> ncalls(h.PutBytes) == 0
+
+// ---- definition hashing: per-callee sequence footprints ---------------------------------------------
+// For each hashing primitive the k-th call (k counted from 0) must receive the k-th hashed field of the
+// version's schema, and on success the number of calls is the number of such fields: every hashed field
+// reaches the hasher in full, none is skipped, repeated in place of another or truncated.
+
+//@ spec func nOpsFull(d Definition, co bool) int = ite(co, 0, len(d.Operators))
+
+//@ spec func blSeq11(d Definition, co bool, k int) []byte = ite(k == 0, []byte(d.UUID), ite(k == 1, []byte(d.Name), ite(k == 2, []byte(d.Version), ite(k == 3, []byte(d.Timestamp), ite(k == 4, []byte(d.DKGAlgorithm), ite(k < 5 + nOpsFull(d, co), []byte(d.Operators[k-5].ENR), []byte(d.ConsensusProtocol)))))))
+//@ spec func blLim11(d Definition, co bool, k int) int = ite(k == 0, 64, ite(k == 1, 256, ite(k == 2, 16, ite(k == 3, 32, ite(k == 4, 32, ite(k < 5 + nOpsFull(d, co), 1024, 256))))))
+//@ spec func addrSeq(d Definition, k int) string = ite(k < len(d.Operators), d.Operators[k].Address, ite(k == len(d.Operators), d.Creator.Address, ite((k - len(d.Operators) - 1) % 2 == 0, d.ValidatorAddresses[(k - len(d.Operators) - 1) / 2].FeeRecipientAddress, d.ValidatorAddresses[(k - len(d.Operators) - 1) / 2].WithdrawalAddress)))
+//@ spec func sigSeq11(d Definition, k int) []byte = ite(k < 2*len(d.Operators), ite(k % 2 == 0, d.Operators[k/2].ConfigSignature, d.Operators[k/2].ENRSignature), d.Creator.ConfigSignature)
+//@ spec func u64Seq11(d Definition, k int) uint64 = ite(k == 0, uint64(d.NumValidators), ite(k == 1, uint64(d.Threshold), uint64(d.TargetGasLimit)))
+
+//@ func hashDefinitionV1x11
+//@ props C12
+//@ callreq putByteList: a2 == blSeq11(d, configOnly, ncalls(putByteList)) && a3 == blLim11(d, configOnly, ncalls(putByteList)) && a1 == hh
+//@ callreq putBytesN: a2 == d.ForkVersion && a3 == 4 && a1 == hh
+//@ callreq putHexBytes20: a2 == addrSeq(d, ncalls(putHexBytes20)) && a1 == hh
+//@ callreq putK1SigList: !configOnly && a2 == sigSeq11(d, ncalls(putK1SigList)) && a3 == 32 && a1 == hh
+//@ callreq hh.PutUint64: a1 == u64Seq11(d, ncalls(hh.PutUint64))
+//@ callreq hh.PutBool: a1 == d.Compounding
+//@ callreq hh.PutBytes: !configOnly && a1 == d.ConfigHash
+//@ callreq hasher.PutUint64Array: len(a1) == len(d.DepositAmounts) && forall(j, 0, len(a1), a1[j] == uint64(d.DepositAmounts[j])) && len(a2) == 1 && a2[0] == 256
+//@ callreq hh.MerkleizeWithMixin: (ncalls(hh.MerkleizeWithMixin) == 0 ==> a2 == uint64(len(d.Operators)) && a3 == 256) && (ncalls(hh.MerkleizeWithMixin) == 1 ==> a2 == uint64(len(d.ValidatorAddresses)) && a3 == 65536)
+//@ ensures result == nil ==> ncalls(putByteList) == 6 + nOpsFull(d, configOnly) && ncalls(putBytesN) == 1
+//@ ensures result == nil ==> ncalls(putHexBytes20) == len(d.Operators) + 1 + 2*len(d.ValidatorAddresses)
+//@ ensures result == nil ==> ncalls(putK1SigList) == ite(configOnly, 0, 2*len(d.Operators) + 1)
+//@ ensures result == nil ==> ncalls(hh.PutUint64) == 3 && ncalls(hh.PutBool) == 1 && ncalls(hasher.PutUint64Array) == 1 && ncalls(hh.PutBytes) == ite(configOnly, 0, 1)
+//@ ensures result == nil ==> ncalls(hh.MerkleizeWithMixin) == 2
+//@ loop 1 invariant ncalls(putByteList) == 5 + ite(configOnly, 0, $i) && ncalls(putHexBytes20) == $i && ncalls(putK1SigList) == ite(configOnly, 0, 2*$i)
+//@ loop 1 invariant ncalls(putBytesN) == 1 && ncalls(hh.PutUint64) == 2 && ncalls(hh.PutBool) == 0 && ncalls(hasher.PutUint64Array) == 0 && ncalls(hh.PutBytes) == 0 && ncalls(hh.MerkleizeWithMixin) == 0
+//@ loop 2 invariant ncalls(putByteList) == 5 + nOpsFull(d, configOnly) && ncalls(putHexBytes20) == len(d.Operators) + 1 + 2*$i && ncalls(putK1SigList) == ite(configOnly, 0, 2*len(d.Operators) + 1)
+//@ loop 2 invariant ncalls(putBytesN) == 1 && ncalls(hh.PutUint64) == 2 && ncalls(hh.PutBool) == 0 && ncalls(hasher.PutUint64Array) == 0 && ncalls(hh.PutBytes) == 0 && ncalls(hh.MerkleizeWithMixin) == 1
+//@ loop 3 invariant len(amounts64) == $i && forall(j, 0, $i, amounts64[j] == uint64(d.DepositAmounts[j]))
+//@ canary result != nil
+
+//@ spec func blSeq5(d Definition, co bool, k int) []byte = ite(k == 0, []byte(d.UUID), ite(k == 1, []byte(d.Name), ite(k == 2, []byte(d.Version), ite(k == 3, []byte(d.Timestamp), ite(k == 4, []byte(d.DKGAlgorithm), []byte(d.Operators[k-5].ENR))))))
+//@ spec func blLim5(k int) int = ite(k == 0, 64, ite(k == 1, 256, ite(k == 2, 16, ite(k == 3, 32, ite(k == 4, 32, 1024)))))
+//@ spec func bnSeq5(d Definition, k int) []byte = ite(k == 0, d.ForkVersion, ite(k <= 2*len(d.Operators), ite(k % 2 == 1, d.Operators[(k-1)/2].ConfigSignature, d.Operators[(k-1)/2].ENRSignature), ite(k == 2*len(d.Operators) + 1, d.Creator.ConfigSignature, d.ConfigHash)))
+//@ spec func bnLen5(d Definition, k int) int = ite(k == 0, 4, ite(k <= 2*len(d.Operators) + 1, 65, 32))
+
+//@ func hashDefinitionV1x5to9
+//@ props C12
+//@ callreq putByteList: a2 == blSeq5(d, configOnly, ncalls(putByteList)) && a3 == blLim5(ncalls(putByteList)) && a1 == hh
+//@ callreq putBytesN: a2 == bnSeq5(d, ncalls(putBytesN)) && a3 == bnLen5(d, ncalls(putBytesN)) && a1 == hh && (configOnly ==> ncalls(putBytesN) == 0)
+//@ callreq putHexBytes20: a2 == addrSeq(d, ncalls(putHexBytes20)) && a1 == hh
+//@ callreq hh.PutUint64: a1 == ite(ncalls(hh.PutUint64) == 0, uint64(d.NumValidators), uint64(d.Threshold))
+//@ callreq f: a1 == d && a2 == hh && f == extra[ncalls(f)]
+//@ callreq hh.MerkleizeWithMixin: (ncalls(hh.MerkleizeWithMixin) == 0 ==> a2 == uint64(len(d.Operators)) && a3 == 256) && (ncalls(hh.MerkleizeWithMixin) == 1 ==> a2 == uint64(len(d.ValidatorAddresses)) && a3 == 65536)
+//@ ensures result == nil ==> ncalls(putByteList) == 5 + nOpsFull(d, configOnly) && ncalls(putBytesN) == ite(configOnly, 1, 2*len(d.Operators) + 3)
+//@ ensures result == nil ==> ncalls(putHexBytes20) == len(d.Operators) + 1 + 2*len(d.ValidatorAddresses)
+//@ ensures result == nil ==> ncalls(hh.PutUint64) == 2 && ncalls(f) == len(extra) && ncalls(hh.MerkleizeWithMixin) == 2
+//@ loop 1 invariant ncalls(putByteList) == 5 + ite(configOnly, 0, $i) && ncalls(putHexBytes20) == $i && ncalls(putBytesN) == 1 + ite(configOnly, 0, 2*$i)
+//@ loop 1 invariant ncalls(hh.PutUint64) == 2 && ncalls(f) == 0 && ncalls(hh.MerkleizeWithMixin) == 0
+//@ loop 2 invariant ncalls(putByteList) == 5 + nOpsFull(d, configOnly) && ncalls(putHexBytes20) == len(d.Operators) + 1 + 2*$i && ncalls(putBytesN) == ite(configOnly, 1, 2*len(d.Operators) + 2)
+//@ loop 2 invariant ncalls(hh.PutUint64) == 2 && ncalls(f) == 0 && ncalls(hh.MerkleizeWithMixin) == 1
+//@ loop 3 invariant ncalls(f) == $i
+//@ canary result != nil
+
+//@ func hashDefinitionV1x5to7
+//@ props C12
+//@ callreq hashDefinitionV1x5to9: a1 == d && a2 == hh && a3 == configOnly && len(a4) == 0
+//@ ensures ncalls(hashDefinitionV1x5to9) == 1
+
+//@ func hashDefinitionV1x8to10
+//@ props C12
+//@ callreq hashDefinitionV1x5to9: a1 == d && a2 == hh && a3 == configOnly && len(a4) == 1
+//@ ensures ncalls(hashDefinitionV1x5to9) == 1
+
+//@ func hashDefinitionV1x8to10$1
+//@ props C12
+//@ callreq hasher.PutUint64Array: len(a1) == len(d.DepositAmounts) && forall(j, 0, len(a1), a1[j] == uint64(d.DepositAmounts[j])) && len(a2) == 1 && a2[0] == 256
+//@ callreq f: a1 == d && a2 == hh && f == extra[ncalls(f)]
+//@ ensures result == nil ==> ncalls(hasher.PutUint64Array) == 1 && ncalls(f) == len(extra)
+//@ loop 1 invariant len(amounts64) == $i && forall(j, 0, $i, amounts64[j] == uint64(d.DepositAmounts[j]))
+//@ loop 2 invariant ncalls(f) == $i && ncalls(hasher.PutUint64Array) == 1
+
+//@ func hashDefinitionV1x8
+//@ props C12
+//@ callreq hashDefinitionV1x8to10: a1 == d && a2 == hh && a3 == configOnly && len(a4) == 0
+//@ ensures ncalls(hashDefinitionV1x8to10) == 1
+
+//@ func hashDefinitionV1x9
+//@ props C12
+//@ callreq hashDefinitionV1x8to10: a1 == d && a2 == hh && a3 == configOnly && len(a4) == 1
+//@ ensures ncalls(hashDefinitionV1x8to10) == 1
+
+//@ func hashDefinitionV1x9$1
+//@ props C12
+//@ callreq putByteList: a1 == hh && a2 == []byte(d.ConsensusProtocol) && a3 == 256
+//@ ensures result == nil ==> ncalls(putByteList) == 1
+
+//@ func hashDefinitionV1x10
+//@ props C12
+//@ callreq hashDefinitionV1x8to10: a1 == d && a2 == hh && a3 == configOnly && len(a4) == 2
+//@ ensures ncalls(hashDefinitionV1x8to10) == 1
+
+//@ func hashDefinitionV1x10$1
+//@ props C12
+//@ callreq putByteList: a1 == hh && a2 == []byte(d.ConsensusProtocol) && a3 == 256
+//@ ensures result == nil ==> ncalls(putByteList) == 1
+
+//@ func hashDefinitionV1x10$2
+//@ props C12
+//@ callreq hh.PutUint64: a1 == uint64(d.TargetGasLimit)
+//@ callreq hh.PutBool: a1 == d.Compounding
+//@ ensures result == nil && ncalls(hh.PutUint64) == 1 && ncalls(hh.PutBool) == 1
+
+// ---- version dispatch tables -----------------------------------------------------------------------
+
+//@ func slices.Contains
+//@ assume-contract standard library: reports whether v is present in s
+//@ pure
+//@ ensures result <==> exists(i, 0, len(s), s[i] == v)
+
+//@ func isAnyVersion
+//@ props C12
+//@ pure
+//@ ensures result <==> exists(i, 0, len(versions), versions[i] == version)
+
+//@ func getDefinitionHashFunc
+//@ props C12
+//@ ensures (version == v1_0 || version == v1_1 || version == v1_2) ==> r1 == nil && r0 == hashDefinitionLegacy
+//@ ensures (version == v1_3 || version == v1_4) ==> r1 == nil && r0 == hashDefinitionV1x3or4
+//@ ensures (version == v1_5 || version == v1_6 || version == v1_7) ==> r1 == nil && r0 == hashDefinitionV1x5to7
+//@ ensures version == v1_8 ==> r1 == nil && r0 == hashDefinitionV1x8
+//@ ensures version == v1_9 ==> r1 == nil && r0 == hashDefinitionV1x9
+//@ ensures version == v1_10 ==> r1 == nil && r0 == hashDefinitionV1x10
+//@ ensures version == v1_11 ==> r1 == nil && r0 == hashDefinitionV1x11
+//@ ensures r1 == nil ==> version == v1_0 || version == v1_1 || version == v1_2 || version == v1_3 || version == v1_4 || version == v1_5 || version == v1_6 || version == v1_7 || version == v1_8 || version == v1_9 || version == v1_10 || version == v1_11
+
+// ---- legacy (v1.0-v1.2) and v1.3/v1.4 definition hashing -------------------------------------------
+
+//@ func (d Definition) LegacyValidatorAddresses
+//@ props C12
+//@ pure
+//@ ensures r1 == nil ==> forall(i, 0, len(d.ValidatorAddresses), d.ValidatorAddresses[i] == r0)
+//@ loop 1 invariant forall(j, 0, $i, d.ValidatorAddresses[j] == resp)
+
+//@ func to0xHex
+//@ assume-contract deterministic 0x-prefixed hex rendering (fmt %#x); the empty slice renders as ""
+//@ pure
+
+//@ spec func lgOp(o Operator, j int) []byte = ite(j == 0, []byte(o.Address), ite(j == 1, []byte(o.ENR), ite(j == 2, o.ConfigSignature, o.ENRSignature)))
+//@ spec func lgSeq(d Definition, co bool, k int) []byte = ite(k == 0, []byte(d.UUID), ite(k == 1, []byte(d.Name), ite(k == 2, []byte(d.Version), ite(k == 3, []byte(res(0, d.LegacyValidatorAddresses()).FeeRecipientAddress), ite(k == 4, []byte(res(0, d.LegacyValidatorAddresses()).WithdrawalAddress), ite(k == 5, []byte(d.DKGAlgorithm), ite(k == 6, []byte(to0xHex(d.ForkVersion)), ite(co, ite(k < 7 + len(d.Operators), []byte(d.Operators[k-7].Address), []byte(d.Timestamp)), ite(k < 7 + 4*len(d.Operators), lgOp(d.Operators[(k-7)/4], (k-7)%4), []byte(d.Timestamp))))))))))
+//@ spec func lgNonce(d Definition, co bool) bool = !co && (d.Version == v1_0 || d.Version == v1_1)
+
+//@ func hashDefinitionLegacy
+//@ props C12
+//@ callreq hh.PutBytes: res(1, d.LegacyValidatorAddresses()) == nil && a1 == lgSeq(d, configOnly, ncalls(hh.PutBytes))
+//@ callreq hh.PutUint64: a1 == ite(ncalls(hh.PutUint64) == 0, uint64(d.NumValidators), ite(ncalls(hh.PutUint64) == 1, uint64(d.Threshold), 0))
+//@ callreq hh.MerkleizeWithMixin: a2 == uint64(len(d.Operators)) && a3 == uint64(len(d.Operators))
+//@ ensures result == nil ==> res(1, d.LegacyValidatorAddresses()) == nil
+//@ ensures result == nil ==> ncalls(hh.PutBytes) == 7 + ite(configOnly, len(d.Operators), 4*len(d.Operators)) + ite(configOnly, ite(d.Timestamp != "", 1, 0), ite(d.Version != v1_0, 1, 0))
+//@ ensures result == nil ==> ncalls(hh.PutUint64) == 2 + ite(lgNonce(d, configOnly), len(d.Operators), 0) && ncalls(hh.MerkleizeWithMixin) == 1
+//@ loop 1 invariant ncalls(hh.PutBytes) == 7 + ite(configOnly, $i, 4*$i) && ncalls(hh.PutUint64) == 2 + ite(lgNonce(d, configOnly), $i, 0) && ncalls(hh.MerkleizeWithMixin) == 0
+//@ canary result != nil
+
+//@ spec func x3Op(o Operator, j int) []byte = ite(j == 0, res(0, from0xHex(o.Address, 20)), ite(j == 1, o.ConfigSignature, o.ENRSignature))
+//@ spec func x3Seq(d Definition, co bool, k int) []byte = ite(k == 0, res(0, from0xHex(res(0, d.LegacyValidatorAddresses()).FeeRecipientAddress, 20)), ite(k == 1, res(0, from0xHex(res(0, d.LegacyValidatorAddresses()).WithdrawalAddress, 20)), ite(k == 2, d.ForkVersion, ite(co, ite(k < 3 + len(d.Operators), res(0, from0xHex(d.Operators[k-3].Address, 20)), res(0, from0xHex(d.Creator.Address, 20))), ite(k < 3 + 3*len(d.Operators), x3Op(d.Operators[(k-3)/3], (k-3)%3), ite(d.Version == v1_3, d.ConfigHash, ite(k == 3 + 3*len(d.Operators), res(0, from0xHex(d.Creator.Address, 20)), ite(k == 4 + 3*len(d.Operators), d.Creator.ConfigSignature, d.ConfigHash))))))))
+
+//@ func isV1x3
+//@ pure
+//@ ensures result <==> version == v1_3
+
+//@ func hashDefinitionV1x3or4
+//@ props C12
+//@ callreq putByteList: a1 == hh && a2 == blSeq5(d, configOnly, ncalls(putByteList)) && a3 == blLim5(ncalls(putByteList))
+//@ callreq hh.PutBytes: res(1, d.LegacyValidatorAddresses()) == nil && a1 == x3Seq(d, configOnly, ncalls(hh.PutBytes))
+//@ callreq hh.PutUint64: a1 == ite(ncalls(hh.PutUint64) == 0, uint64(d.NumValidators), uint64(d.Threshold))
+//@ callreq hh.MerkleizeWithMixin: a2 == uint64(len(d.Operators)) && a3 == 256
+//@ ensures result == nil ==> res(1, d.LegacyValidatorAddresses()) == nil
+//@ ensures result == nil ==> ncalls(putByteList) == 5 + nOpsFull(d, configOnly) && ncalls(hh.PutUint64) == 2 && ncalls(hh.MerkleizeWithMixin) == 1
+//@ ensures result == nil ==> ncalls(hh.PutBytes) == 3 + ite(configOnly, len(d.Operators), 3*len(d.Operators)) + ite(d.Version == v1_3, 0, ite(configOnly, 1, 2)) + ite(configOnly, 0, 1)
+//@ loop 1 invariant ncalls(hh.PutBytes) == 3 + ite(configOnly, $i, 3*$i) && ncalls(putByteList) == 5 + ite(configOnly, 0, $i) && ncalls(hh.PutUint64) == 2 && ncalls(hh.MerkleizeWithMixin) == 0
+//@ canary result != nil
+
+// ---- validator, deposit data, registration and lock hashing ----------------------------------------
+
+//@ func hashValidatorPubsharesField
+//@ props C12
+//@ callreq putBytesN: a1 == hh && a2 == v.PubShares[ncalls(putBytesN)] && a3 == 48
+//@ callreq hh.MerkleizeWithMixin: a2 == uint64(len(v.PubShares)) && a3 == 256
+//@ ensures result == nil ==> ncalls(putBytesN) == len(v.PubShares) && ncalls(hh.MerkleizeWithMixin) == 1
+//@ loop 1 invariant ncalls(putBytesN) == $i && ncalls(hh.MerkleizeWithMixin) == 0
+//@ canary result != nil
+
+//@ func hashValidatorV1x3Or4
+//@ props C12
+//@ callreq hh.PutBytes: ncalls(hh.PutBytes) == 0 ==> a1 == v.PubKey
+//@ callreq hashValidatorPubsharesField: a1 == v && a2 == hh
+//@ ensures result == nil ==> ncalls(hh.PutBytes) == 2 && ncalls(hashValidatorPubsharesField) == 1
+
+//@ func getDepositDataHashFunc
+//@ props C12
+//@ ensures version == v1_6 ==> r1 == nil && r0 == hashDepositDataV1x6
+//@ ensures (version == v1_7 || version == v1_8 || version == v1_9 || version == v1_10 || version == v1_11) ==> r1 == nil && r0 == hashDepositDataV1x7OrLater
+
+//@ func getRegistrationHashFunc
+//@ props C12
+//@ ensures (version == v1_7 || version == v1_8 || version == v1_9 || version == v1_10 || version == v1_11) ==> r1 == nil && r0 == hashBuilderRegistration
+
+//@ func getValidatorHashFunc
+//@ props C12
+//@ ensures (version == v1_3 || version == v1_4) ==> r1 == nil && r0 == hashValidatorV1x3Or4
+//@ ensures (version == v1_5 || version == v1_6 || version == v1_7) ==> r1 == nil && r0 == hashValidatorV1x5to7
+//@ ensures (version == v1_8 || version == v1_9 || version == v1_10 || version == v1_11) ==> r1 == nil && r0 == hashValidatorV1x8OrLater
+
+//@ spec func isV7to11(v string) bool = v == v1_7 || v == v1_8 || v == v1_9 || v == v1_10 || v == v1_11
+
+//@ func hashValidatorV1x5to7
+//@ props C12
+//@ callreq putBytesN: a1 == hh && a2 == v.PubKey && a3 == 48
+//@ callreq hashValidatorPubsharesField: a1 == v && a2 == hh
+//@ callreq depositHashFunc: a2 == hh && (len(v.PartialDepositData) > 0 ==> a1 == v.PartialDepositData[0])
+//@ callreq depositHashFunc: (version == v1_6 ==> depositHashFunc == hashDepositDataV1x6) && (version == v1_7 ==> depositHashFunc == hashDepositDataV1x7OrLater)
+//@ callreq regHashFunc: a1 == v.BuilderRegistration && a2 == hh && (version == v1_7 ==> regHashFunc == hashBuilderRegistration)
+//@ ensures result == nil ==> ncalls(putBytesN) == 1 && ncalls(hashValidatorPubsharesField) == 1 && ncalls(depositHashFunc) == 1 && ncalls(regHashFunc) == 1
+
+//@ func hashValidatorV1x8OrLater
+//@ props C12
+//@ callreq putBytesN: a1 == hh && a2 == v.PubKey && a3 == 48
+//@ callreq hashValidatorPubsharesField: a1 == v && a2 == hh
+//@ callreq depositHashFunc: a2 == hh && a1 == v.PartialDepositData[ncalls(depositHashFunc)] && (isV7to11(version) ==> depositHashFunc == hashDepositDataV1x7OrLater)
+//@ callreq regHashFunc: a1 == v.BuilderRegistration && a2 == hh && (isV7to11(version) ==> regHashFunc == hashBuilderRegistration)
+//@ callreq hh.MerkleizeWithMixin: a2 == uint64(len(v.PartialDepositData)) && a3 == 256
+//@ ensures result == nil ==> ncalls(putBytesN) == 1 && ncalls(hashValidatorPubsharesField) == 1 && ncalls(depositHashFunc) == len(v.PartialDepositData) && ncalls(regHashFunc) == 1 && ncalls(hh.MerkleizeWithMixin) == 1
+//@ loop 1 invariant ncalls(depositHashFunc) == $i && ncalls(regHashFunc) == 0 && ncalls(hh.MerkleizeWithMixin) == 0 && ncalls(putBytesN) == 1 && ncalls(hashValidatorPubsharesField) == 1
+//@ canary result != nil
+
+//@ func hashValidatorLegacy
+//@ props C12
+//@ callreq hh.PutBytes: (ncalls(hh.PutBytes) == 0 ==> a1 == []byte(to0xHex(v.PubKey))) && (ncalls(hh.PutBytes) >= 1 && ncalls(hh.PutBytes) <= len(v.PubShares) ==> a1 == v.PubShares[ncalls(hh.PutBytes) - 1])
+//@ callreq hh.MerkleizeWithMixin: a2 == uint64(len(v.PubShares)) && a3 == uint64(len(v.PubShares))
+//@ ensures result == nil && ncalls(hh.PutBytes) == len(v.PubShares) + 2 && ncalls(hh.MerkleizeWithMixin) == 1
+//@ loop 1 invariant ncalls(hh.PutBytes) == 1 + $i && ncalls(hh.MerkleizeWithMixin) == 0
+
+//@ spec func ddSeq(d DepositData, k int) []byte = ite(k == 0, d.PubKey, ite(k == 1, d.WithdrawalCredentials, d.Signature))
+//@ spec func ddLen(k int) int = ite(k == 0, 48, ite(k == 1, 32, 96))
+
+//@ func hashDepositDataV1x6
+//@ props C12
+//@ callreq putBytesN: a1 == hh && a2 == ddSeq(d, ncalls(putBytesN)) && a3 == ddLen(ncalls(putBytesN))
+//@ callreq hh.PutUint64: a1 == uint64(d.Amount)
+//@ ensures result == nil ==> ncalls(putBytesN) == 3 && ncalls(hh.PutUint64) == 1
+
+//@ func hashDepositDataV1x7OrLater
+//@ props C12
+//@ callreq putBytesN: a1 == hh && a2 == ddSeq(d, ncalls(putBytesN)) && a3 == ddLen(ncalls(putBytesN))
+//@ callreq hh.PutUint64: a1 == uint64(d.Amount)
+//@ ensures result == nil ==> ncalls(putBytesN) == 3 && ncalls(hh.PutUint64) == 1
+
+//@ func hashBuilderRegistration
+//@ props C12
+//@ callreq hashRegistration: a1 == b.Message && a2 == hh
+//@ callreq putBytesN: a1 == hh && a2 == b.Signature && a3 == 96
+//@ ensures result == nil ==> ncalls(hashRegistration) == 1 && ncalls(putBytesN) == 1
+
+//@ pure time.Time.Unix
+
+//@ func hashRegistration
+//@ props C12
+//@ callreq hh.PutBytes: a1 == r.FeeRecipient
+//@ callreq hh.PutUint64: a1 == ite(ncalls(hh.PutUint64) == 0, uint64(r.GasLimit), uint64(r.Timestamp.Unix()))
+//@ callreq putBytesN: a1 == hh && a2 == r.PubKey && a3 == 48
+//@ ensures result == nil ==> ncalls(hh.PutBytes) == 1 && ncalls(hh.PutUint64) == 2 && ncalls(putBytesN) == 1
+
+//@ func hashLockV1x3orLater
+//@ props C12
+//@ callreq defHashFunc: a1 == l.Definition && a2 == hh && a3 == false
+//@ callreq defHashFunc: (l.Version == v1_3 || l.Version == v1_4 ==> defHashFunc == hashDefinitionV1x3or4) && (l.Version == v1_5 || l.Version == v1_6 || l.Version == v1_7 ==> defHashFunc == hashDefinitionV1x5to7) && (l.Version == v1_8 ==> defHashFunc == hashDefinitionV1x8) && (l.Version == v1_9 ==> defHashFunc == hashDefinitionV1x9) && (l.Version == v1_10 ==> defHashFunc == hashDefinitionV1x10) && (l.Version == v1_11 ==> defHashFunc == hashDefinitionV1x11)
+//@ callreq valHashFunc: a1 == l.Validators[ncalls(valHashFunc)] && a2 == hh && a3 == l.Version
+//@ callreq valHashFunc: (l.Version == v1_3 || l.Version == v1_4 ==> valHashFunc == hashValidatorV1x3Or4) && (l.Version == v1_5 || l.Version == v1_6 || l.Version == v1_7 ==> valHashFunc == hashValidatorV1x5to7) && (l.Version == v1_8 || l.Version == v1_9 || l.Version == v1_10 || l.Version == v1_11 ==> valHashFunc == hashValidatorV1x8OrLater)
+//@ callreq hh.MerkleizeWithMixin: a2 == uint64(len(l.Validators)) && a3 == 65536
+//@ ensures result == nil ==> ncalls(defHashFunc) == 1 && ncalls(valHashFunc) == len(l.Validators) && ncalls(hh.MerkleizeWithMixin) == 1
+//@ loop 1 invariant ncalls(valHashFunc) == $i && ncalls(defHashFunc) == 1 && ncalls(hh.MerkleizeWithMixin) == 0
+//@ canary result != nil
+
+//@ func hashLockLegacy
+//@ props C12
+//@ callreq hashDefinitionLegacy: a1 == l.Definition && a2 == hh && a3 == false
+//@ callreq hashValidatorLegacy: a1 == l.Validators[ncalls(hashValidatorLegacy)] && a2 == hh
+//@ callreq hh.MerkleizeWithMixin: a2 == uint64(len(l.Validators)) && a3 == uint64(len(l.Validators))
+//@ ensures result == nil ==> ncalls(hashDefinitionLegacy) == 1 && ncalls(hashValidatorLegacy) == len(l.Validators) && ncalls(hh.MerkleizeWithMixin) == 1
+//@ loop 1 invariant ncalls(hashValidatorLegacy) == $i && ncalls(hashDefinitionLegacy) == 1 && ncalls(hh.MerkleizeWithMixin) == 0
+
+// ---- hash entry points and hash verification -------------------------------------------------------
+
+//@ pure bytes.Equal
+
+//@ func hashDefinition
+//@ props C12
+//@ pure
+//@ callreq hashFunc: a1 == d && a2 == hh && a3 == configOnly
+//@ callreq hashFunc: (d.Version == v1_0 || d.Version == v1_1 || d.Version == v1_2 ==> hashFunc == hashDefinitionLegacy) && (d.Version == v1_3 || d.Version == v1_4 ==> hashFunc == hashDefinitionV1x3or4) && (d.Version == v1_5 || d.Version == v1_6 || d.Version == v1_7 ==> hashFunc == hashDefinitionV1x5to7) && (d.Version == v1_8 ==> hashFunc == hashDefinitionV1x8) && (d.Version == v1_9 ==> hashFunc == hashDefinitionV1x9) && (d.Version == v1_10 ==> hashFunc == hashDefinitionV1x10) && (d.Version == v1_11 ==> hashFunc == hashDefinitionV1x11)
+//@ callreq hh.HashRoot: ncalls(hashFunc) == 1
+//@ ensures r1 == nil ==> ncalls(hashFunc) == 1 && ncalls(hh.HashRoot) == 1
+//@ canary r1 != nil
+
+//@ func hashLock
+//@ props C12
+//@ pure
+//@ callreq hashFunc: a1 == l && a2 == hh
+//@ callreq hashFunc: (l.Version == v1_0 || l.Version == v1_1 || l.Version == v1_2 ==> hashFunc == hashLockLegacy) && (l.Version == v1_3 || l.Version == v1_4 || l.Version == v1_5 || l.Version == v1_6 || l.Version == v1_7 || l.Version == v1_8 || l.Version == v1_9 || l.Version == v1_10 || l.Version == v1_11 ==> hashFunc == hashLockV1x3orLater)
+//@ callreq hh.HashRoot: ncalls(hashFunc) == 1
+//@ ensures r1 == nil ==> ncalls(hashFunc) == 1 && ncalls(hh.HashRoot) == 1
+//@ canary r1 != nil
+
+//@ func (d Definition) VerifyHashes
+//@ props C12
+//@ pure
+//@ ensures result == nil ==> res(1, hashDefinition(d, true)) == nil && res(1, hashDefinition(d, false)) == nil
+//@ ensures result == nil ==> bytes.Equal(d.ConfigHash, res(0, hashDefinition(d, true))[:]) && bytes.Equal(d.DefinitionHash, res(0, hashDefinition(d, false))[:])
+//@ canary result != nil
+
+//@ func (d Definition) SetDefinitionHashes
+//@ props C12
+//@ ensures r1 == nil ==> res(1, hashDefinition(old(d), true)) == nil && r0.ConfigHash == res(0, hashDefinition(old(d), true))[:]
+//@ canary r1 != nil
+
+//@ func (l Lock) VerifyHashes
+//@ props C12
+//@ ensures result == nil ==> l.Definition.VerifyHashes() == nil && len(l.Validators) == l.Definition.NumValidators
+//@ ensures result == nil ==> res(1, hashLock(l)) == nil && bytes.Equal(l.LockHash, res(0, hashLock(l))[:])
+//@ canary result != nil
+
+//@ func (l Lock) SetLockHash
+//@ props C12
+//@ ensures r1 == nil ==> res(1, hashLock(old(l))) == nil && r0.LockHash == res(0, hashLock(old(l)))[:]
+//@ ensures r1 == nil ==> r0.Definition == old(l).Definition && r0.Validators == old(l).Validators && r0.SignatureAggregate == old(l).SignatureAggregate && r0.NodeSignatures == old(l).NodeSignatures
+//@ canary r1 != nil
+
+// ---- lock signature verification -------------------------------------------------------------------
+
+//@ pure tblsconv.PubkeyFromBytes tblsconv.SignatureFromBytes tbls.RecoverPubkey tbls.VerifyAggregate tbls.Verify enr.Parse k1util.Verify65
+//@ pure registration.NewMessage registration.GetMessageSigningRoot
+
+//@ func parsePubShares
+//@ props C12
+//@ ensures r1 == nil ==> len(r0) == len(raw) && forall(i, 0, len(raw), res(1, tblsconv.PubkeyFromBytes(raw[i])) == nil && r0[i] == res(0, tblsconv.PubkeyFromBytes(raw[i])))
+//@ ensures r1 == nil ==> forall(i, 0, len(raw), forall(j, 0, i, r0[i] != r0[j]))
+//@ loop 1 invariant len(parsed) == len(raw) && forall(k, 0, $i, res(1, tblsconv.PubkeyFromBytes(raw[k])) == nil && parsed[k] == res(0, tblsconv.PubkeyFromBytes(raw[k])) && has(seen, parsed[k]))
+//@ loop 1 invariant forall(k, 0, $i, forall(j, 0, k, parsed[k] != parsed[j])) && forallk(p, seen, exists(k, 0, $i, parsed[k] == p))
+//@ canary r1 != nil
+
+// Every share is checked against the distributed key: the first t reconstruct it, and each later share
+// reconstructs it together with the first t-1.
+//@ func verifySharesReconstruct
+//@ props C12
+//@ callreq tbls.RecoverPubkey: len(a1) == threshold && forall(j, 0, threshold - 1, has(a1, j+1) && a1[j+1] == shares[j])
+//@ callreq tbls.RecoverPubkey: ncalls(tbls.RecoverPubkey) == 0 ==> has(a1, threshold) && a1[threshold] == shares[threshold-1]
+//@ callreq tbls.RecoverPubkey: ncalls(tbls.RecoverPubkey) >= 1 ==> has(a1, threshold + ncalls(tbls.RecoverPubkey)) && a1[threshold + ncalls(tbls.RecoverPubkey)] == shares[threshold + ncalls(tbls.RecoverPubkey) - 1]
+//@ ensures result == nil ==> threshold >= 1 && threshold <= len(shares) && ncalls(tbls.RecoverPubkey) == len(shares) - threshold + 1
+//@ ghost nMatch int
+//@ ghostcall tbls.RecoverPubkey: nMatch = nMatch + ite(res(1, tbls.RecoverPubkey(a1)) == nil && res(0, tbls.RecoverPubkey(a1)) == dvKey, 1, 0)
+//@ ensures result == nil ==> nMatch == old(nMatch) + ncalls(tbls.RecoverPubkey)
+//@ loop 1 invariant len(subset) == $i && forall(j, 0, $i, has(subset, j+1) && subset[j+1] == shares[j]) && forallk(k, subset, k >= 1 && k <= $i) && ncalls(tbls.RecoverPubkey) == 0
+//@ loop 2 invariant i >= threshold && i <= len(shares) && ncalls(tbls.RecoverPubkey) == i - threshold + 1 && nMatch == old(nMatch) + ncalls(tbls.RecoverPubkey)
+//@ loop 3 invariant len(subset) == $i && forall(j, 0, $i, has(subset, j+1) && subset[j+1] == shares[j]) && forallk(k, subset, k >= 1 && k <= $i) && ncalls(tbls.RecoverPubkey) == i - threshold + 1 && nMatch == old(nMatch) + ncalls(tbls.RecoverPubkey)
+//@ canary result != nil
+
+//@ pure Definition.FeeRecipientAddresses
+
+//@ spec func preV7(v string) bool = v == v1_0 || v == v1_1 || v == v1_2 || v == v1_3 || v == v1_4 || v == v1_5 || v == v1_6
+
+// Node signatures: one per operator, each verified against the operator's ENR key over the lock hash.
+//@ func (l Lock) verifyNodeSignatures
+//@ props C12
+//@ callreq k1util.Verify65: a2 == l.LockHash && a3 == l.NodeSignatures[ncalls(k1util.Verify65)] && res(1, enr.Parse(l.Definition.Operators[ncalls(k1util.Verify65)].ENR)) == nil && a1 == res(0, enr.Parse(l.Definition.Operators[ncalls(k1util.Verify65)].ENR)).PubKey
+//@ ghost nOK int
+//@ ghostcall k1util.Verify65: nOK = nOK + ite(res(1, k1util.Verify65(a1, a2, a3)) == nil && res(0, k1util.Verify65(a1, a2, a3)), 1, 0)
+//@ ensures result == nil && preV7(l.Definition.Version) ==> len(l.NodeSignatures) == 0
+//@ ensures result == nil && isV7to11(l.Definition.Version) ==> len(l.NodeSignatures) == len(l.Definition.Operators) && ncalls(k1util.Verify65) == len(l.Definition.Operators) && nOK == old(nOK) + len(l.Definition.Operators)
+//@ loop 1 invariant ncalls(k1util.Verify65) == $i && nOK == old(nOK) + $i
+//@ canary result != nil
+
+//@ func (l Lock) verifyBuilderRegistrations
+//@ props C12
+//@ callreq registration.NewMessage: a2 == l.Definition.FeeRecipientAddresses()[ncalls(registration.NewMessage)] && a3 == uint64(l.Validators[ncalls(registration.NewMessage)].BuilderRegistration.Message.GasLimit) && a4 == l.Validators[ncalls(registration.NewMessage)].BuilderRegistration.Message.Timestamp
+//@ callreq tbls.Verify: a1 == res(0, tblsconv.PubkeyFromBytes(l.Validators[ncalls(tbls.Verify)].PubKey)) && a3 == res(0, tblsconv.SignatureFromBytes(l.Validators[ncalls(tbls.Verify)].BuilderRegistration.Signature))
+//@ ghost nReg int
+//@ ghostcall tbls.Verify: nReg = nReg + ite(tbls.Verify(a1, a2, a3) == nil, 1, 0)
+//@ ensures result == nil && isV7to11(l.Definition.Version) ==> ncalls(tbls.Verify) == len(l.Validators) && ncalls(registration.NewMessage) == len(l.Validators) && nReg == old(nReg) + len(l.Validators)
+//@ loop 1 invariant !preV7(l.Definition.Version) ==> ncalls(tbls.Verify) == $i && ncalls(registration.NewMessage) == $i && nReg == old(nReg) + $i
+//@ canary result != nil
+
+// Lock.VerifySignatures: the aggregate BLS signature is checked over the recomputed lock hash with the
+// parsed public shares of every validator (operator-major order), every validator's shares are checked
+// to reconstruct its key, and registration and node signatures are verified.
+//@ func (l Lock) VerifySignatures
+//@ props C12
+//@ callreq verifySharesReconstruct: res(1, tblsconv.PubkeyFromBytes(l.Validators[ncalls(verifySharesReconstruct)].PubKey)) == nil && a1 == res(0, tblsconv.PubkeyFromBytes(l.Validators[ncalls(verifySharesReconstruct)].PubKey)) && a3 == l.Definition.Threshold
+//@ callreq verifySharesReconstruct: len(a2) == len(l.Definition.Operators) && forall(j, 0, len(a2), a2[j] == res(0, tblsconv.PubkeyFromBytes(l.Validators[ncalls(verifySharesReconstruct)].PubShares[j])))
+//@ callreq tbls.VerifyAggregate: res(1, hashLock(l)) == nil && a3 == res(0, hashLock(l))[:] && a2 == res(0, tblsconv.SignatureFromBytes(l.SignatureAggregate))
+//@ callreq tbls.VerifyAggregate: len(a1) == len(l.Validators) * len(l.Definition.Operators) && forall(i, 0, len(l.Validators), forall(j, 0, len(l.Definition.Operators), a1[i*len(l.Definition.Operators)+j] == res(0, tblsconv.PubkeyFromBytes(l.Validators[i].PubShares[j]))))
+//@ ghost aggOK bool
+//@ ghostcall tbls.VerifyAggregate: aggOK = tbls.VerifyAggregate(a1, a2, a3) == nil
+//@ ensures result == nil ==> l.Definition.VerifySignatures(eth1) == nil
+//@ ensures result == nil && !(len(l.SignatureAggregate) == 0 && (l.Definition.Version == v1_0 || l.Definition.Version == v1_1)) ==> ncalls(tbls.VerifyAggregate) == 1 && aggOK
+//@ ensures result == nil && !(len(l.SignatureAggregate) == 0 && (l.Definition.Version == v1_0 || l.Definition.Version == v1_1)) ==> ncalls(verifySharesReconstruct) == len(l.Validators) && ncalls(l.verifyBuilderRegistrations) == 1 && ncalls(l.verifyNodeSignatures) == 1
+//@ loop 1 invariant ncalls(verifySharesReconstruct) == $i && ncalls(tbls.VerifyAggregate) == 0 && len(pubkeys) == $i * len(l.Definition.Operators)
+//@ loop 1 invariant forall(i, 0, $i, forall(j, 0, len(l.Definition.Operators), pubkeys[i*len(l.Definition.Operators)+j] == res(0, tblsconv.PubkeyFromBytes(l.Validators[i].PubShares[j]))))
+//@ canary result != nil
+
+// ---- definition (EIP-712) signature verification ---------------------------------------------------
+
+//@ func verifySigOrERC1271
+//@ assume-contract deterministic for a fixed chain state (EOA recovery, else ERC-1271 eth_call)
+//@ pure
+
+//@ func digestEIP712
+//@ assume-contract deterministic EIP-712 digest of (type, definition, operator)
+//@ pure
+
+//@ pure getOperatorEIP712Type
+
+//@ func supportEIP712Sigs
+//@ pure
+//@ ensures result <==> !(version == v1_0 || version == v1_1 || version == v1_2)
+
+//@ func eip712SigsPresent
+//@ pure
+//@ ensures result <==> exists(i, 0, len(operators), len(operators[i].ENRSignature) > 0 || len(operators[i].ConfigSignature) > 0)
+//@ loop 1 invariant forall(j, 0, $i, len(operators[j].ENRSignature) == 0 && len(operators[j].ConfigSignature) == 0)
+
+//@ spec func sigOK(eth1 eth1wrap.EthClientRunner, addr string, digest []byte, sig []byte) bool = res(1, verifySigOrERC1271(eth1, addr, digest, sig)) == nil && res(0, verifySigOrERC1271(eth1, addr, digest, sig))
+//@ spec opaque func opUnsigned(o Operator) bool = o.Address == "" && len(o.ENRSignature) == 0 && len(o.ConfigSignature) == 0
+//@ spec opaque func opSigned(eth1 eth1wrap.EthClientRunner, d Definition, o Operator) bool = len(o.ENRSignature) > 0 && len(o.ConfigSignature) > 0 && sigOK(eth1, o.Address, res(0, digestEIP712(getOperatorEIP712Type(d.Version), d, Operator{})), o.ConfigSignature) && sigOK(eth1, o.Address, res(0, digestEIP712(eip712ENR, d, o)), o.ENRSignature)
+
+// Every operator is either completely unsigned (and then all are) or has both its config and ENR
+// signature verified against ITS address and the digest over THIS definition; likewise the creator.
+//@ func (d Definition) VerifySignatures
+//@ props C12
+//@ pure
+//@ ensures result == nil && !supportEIP712Sigs(d.Version) ==> !eip712SigsPresent(d.Operators)
+//@ ensures result == nil && supportEIP712Sigs(d.Version) ==> forall(i, 0, len(d.Operators), opUnsigned(d.Operators[i]) || opSigned(eth1, d, d.Operators[i]))
+//@ ensures result == nil && supportEIP712Sigs(d.Version) ==> forall(i, 0, len(d.Operators), forall(j, 0, len(d.Operators), opUnsigned(d.Operators[i]) <==> opUnsigned(d.Operators[j])))
+//@ ensures result == nil && supportEIP712Sigs(d.Version) && d.Version != v1_3 && !(d.Creator.Address == "" && len(d.Creator.ConfigSignature) == 0) ==> len(d.Creator.ConfigSignature) > 0 && sigOK(eth1, d.Creator.Address, res(0, digestEIP712(eip712CreatorConfigHash, d, Operator{})), d.Creator.ConfigSignature)
+//@ ensures result == nil && supportEIP712Sigs(d.Version) && d.Version != v1_3 && d.Creator.Address == "" && len(d.Creator.ConfigSignature) == 0 ==> forall(i, 0, len(d.Operators), opUnsigned(d.Operators[i])) && len(d.Operators) > 0
+//@ loop 1 invariant noOpSigs >= 0 && noOpSigs <= $i
+//@ loop 1 invariant operatorConfigHashDigest == res(0, digestEIP712(getOperatorEIP712Type(d.Version), d, Operator{}))
+//@ loop 1 invariant forall(j, 0, $i, opUnsigned(d.Operators[j]) || opSigned(eth1, d, d.Operators[j]))
+//@ loop 1 invariant (noOpSigs == 0 ==> forall(j, 0, $i, !opUnsigned(d.Operators[j]))) && (noOpSigs == $i ==> forall(j, 0, $i, opUnsigned(d.Operators[j])))
+//@ canary result != nil
